@@ -405,6 +405,7 @@ def run_scenario(sc):
         out["injected"] = injected["done"]
         out["fetch_task_done"] = consumer._fetcher._fetch_task.done() if consumer._fetcher else None
         HOOK["fn"] = None
+        c03_sim.CL = None          # the observation ends with the final snapshot (stop() is C19's business)
         try:
             await asyncio.wait_for(consumer.stop(), timeout=60.0)
             out["stopped"] = True
